@@ -439,6 +439,9 @@ def agree(case, out, res):
         if max(abs(Fraction(v)) for v in case['vals']) > 40 * per_year:
             # the fractional-year float arithmetic of this (recorded) path is not exact for large offsets
             return None
+        if res.get('ref') and _on_year_boundary(case, res['ref']):
+            # ... nor where the exact fractional year is a whole number: the float sum lands just below it (367/366 - 1/366)
+            return None
     if k in ('tflag', 'attrs', 'cf'):
         mine = lib.show_list(res['times'])
         if toks[1] != mine:
@@ -460,6 +463,25 @@ def agree(case, out, res):
             return 'time variable model=%s impl=%s' % (toks[1][:200], mine[:200])
         return None
     return 'unknown kind'
+
+
+def _on_year_boundary(case, ref):
+    """does one of the times the fixed-length-calendar path works on fall exactly on a year boundary of its own arithmetic
+    (value / year length minus the offset of the reference date within its year is a whole number)?"""
+    yd = 365 if case['cal'] in ('noleap', '365_day') else 366
+    yearlike = 1970 if yd == 365 else 1972
+    try:
+        doy0 = (dt.date(yearlike, ref[1], ref[2]) - dt.date(yearlike, 1, 1)).days
+    except ValueError:
+        return True
+    denom = {'days': yd, 'hours': yd * 24, 'minutes': yd * 1440, 'seconds': yd * 1440, 'weeks': yd}[case['unit']]
+    vals = [Fraction(v) for v in case['vals']]
+    if case['bnd'] == 'approx' and len(vals) >= 2:
+        dtm = (vals[-1] - vals[0]) / (len(vals) - 1)
+        vals = [v - dtm / 2 for v in vals] + [vals[-1] + dtm / 2]
+    elif case['bnd'] in ('tb', 'tbgap') and len(vals) >= 2:
+        vals = vals + [vals[-1] + (vals[1] - vals[0]) / (2 if case['bnd'] == 'tbgap' else 1)]
+    return any((v / denom - Fraction(doy0, yd)).denominator == 1 for v in vals)
 
 
 def _true_instant(d, t):
